@@ -140,6 +140,7 @@ class Unit(HookHost):
 
         :param in_profile: the incoming state passed to :py:meth:`solve`
         """
+        self.__cache__.clear()
 
         for pre_processor_factory in self._yield_pre_processors():
             pre_processor = pre_processor_factory(self)
